@@ -470,7 +470,7 @@ PARTS = [
         "multi_tan_sim",
         exec_multi_tan,
         strategy=strat_multi_tan,
-        examples={"quick": 160, "thorough": 6000},
+        examples={"quick": 480, "thorough": 8000},
         shards={"quick": 16, "thorough": 16},
         budget_s={"quick": 70, "thorough": 1500},
         engine="A",
